@@ -4,6 +4,7 @@ Each rule fails only on a positively wrong construct (a named expression of
 /repo's current source); a shape it does not recognise gives no obligation or
 an UNDECIDED one."""
 import ast
+import re
 
 from .core import (norm, walk_local, call_name, calls_in, kwarg, const_int,
                    helper_closure, resolve_local_call)
@@ -956,3 +957,620 @@ def _reaching_owner(fn, cfg, dom, st, name, params, depth):
         return _reaching_owner(fn, cfg, dom, best.stmt, name, params,
                                depth + 1)
     return _reaching_owner(fn, cfg, dom, best.stmt, src, params, depth + 1)
+
+
+# ---------------------------------------------------------------------
+def minishard_final_before_use(repo, col):
+    """Shard.close: MiniShard.close() flushes the parked chunks and fills the
+    gaps, which grows the minishard's data and index.  Their length / content
+    is final only afterwards: no statement of Shard.close reads them on a
+    path that has not closed the minishards yet."""
+    rule = "E-ORDER.minishard-final"
+    ms = repo.cls("sharded_file_accessor", "MiniShard")
+    # what closing a minishard may still change: attributes written by
+    # append (reached from close through flush_buffer)
+    grown = set()
+    for mname in ("append", "flush_buffer", "close"):
+        f = ms.methods.get(mname)
+        if f is None:
+            continue
+        for st in ast.walk(f.node):
+            tg = []
+            if isinstance(st, ast.Assign):
+                tg = st.targets
+            elif isinstance(st, ast.AugAssign):
+                tg = [st.target]
+            for t in tg:
+                b = t
+                while isinstance(b, ast.Subscript):
+                    b = b.value
+                if isinstance(b, ast.Attribute) and \
+                        isinstance(b.value, ast.Name) and b.value.id == "self":
+                    grown.add(b.attr)
+    grown -= {"_last_chunk_id", "_appended", "next_cmc"}
+    grown = {a for a in grown if not a.startswith("__")}
+    fn = repo.func("sharded_file_accessor", "Shard.close", inline=True)
+    cfg = fn.cfg()
+    dom = cfg.dominators()
+    from .core import enclosing_stmt_map
+    owner = enclosing_stmt_map(fn.node)
+    defs = local_defs(fn.node)
+    elems = {n for n, ds in defs.items()
+             if any(d.kind in ("for", "comp") or d.elem for d in ds)}
+    closes = []
+    close_loops = []
+    for c in calls_in(fn.node):
+        if isinstance(c.func, ast.Attribute) and c.func.attr == "close" and \
+                isinstance(c.func.value, ast.Name) and \
+                c.func.value.id in elems and not c.args:
+            n_ = cfg.node_of(owner.get(id(c)))
+            if n_ is not None:
+                closes.append(n_)
+                # the loop that closes every minishard: whatever follows the
+                # loop comes after all of them were closed
+                for lp in ast.walk(fn.node):
+                    if isinstance(lp, ast.For) and any(
+                            owner.get(id(c)) is y or any(
+                                z is owner.get(id(c)) for z in ast.walk(y))
+                            for y in lp.body):
+                        ln_ = cfg.node_of(lp)
+                        if ln_ is not None:
+                            close_loops.append((ln_, {
+                                id(z) for y in lp.body for z in ast.walk(y)}))
+    if not closes:
+        col.add(rule, fn, "minishard.close()", True,
+                "no per-minishard close() call recognised in Shard.close",
+                undecided=True)
+        return
+    n = 0
+    for x in ast.walk(fn.node):
+        if isinstance(x, ast.Attribute) and isinstance(x.ctx, ast.Load) and \
+                x.attr in grown and isinstance(x.value, ast.Name) and \
+                x.value.id in elems:
+            st = owner.get(id(x))
+            sn = cfg.node_of(st) if st is not None else None
+            if sn is None:
+                continue
+            n += 1
+            ok = any(cn.id in dom[sn.id] for cn in closes) or sn in closes \
+                or any(ln_.id in dom[sn.id] and id(st) not in body
+                       for ln_, body in close_loops)
+            if sn in closes:
+                # same statement: close() must come first in it
+                ok = True
+            col.add(rule, fn, "%s read after close()" % re.sub(r"__h\d+", "", norm(x)), ok,
+                    "" if ok else "`%s` is read at line %d on a path where "
+                    "no minishard has been closed yet: close() still appends "
+                    "the parked chunks and the gap entries, so a length or "
+                    "offset taken here is too small for every minishard "
+                    "after the first" % (norm(x), getattr(x, "lineno", 0)),
+                    node=x)
+    if n == 0:
+        col.add(rule, fn, "reads of %s" % ", ".join(sorted(grown)), True,
+                "no read of the growing attributes recognised",
+                undecided=True)
+
+
+# ---------------------------------------------------------------------
+def _derivations(fn, expr, depth=0, seen=None):
+    """Expressions `expr` may evaluate from: local definitions followed
+    backwards, and - for a name unpacked from the result of a local helper -
+    the helper's return expressions at that position."""
+    seen = seen if seen is not None else set()
+    out = [expr]
+    if depth > 4:
+        return out
+    defs = local_defs(fn.node)
+    for n in ast.walk(expr):
+        if not isinstance(n, ast.Name) or (fn.key, n.id) in seen:
+            continue
+        seen.add((fn.key, n.id))
+        for d in defs.get(n.id, []):
+            if d.value is None or d.elem:
+                continue
+            v = d.value
+            if isinstance(v, ast.Call):
+                h = resolve_local_call(fn, v)
+                if h is not None and h is not fn:
+                    for r in ast.walk(h.node):
+                        if isinstance(r, ast.Return) and r.value is not None:
+                            rv = r.value
+                            if d.index is not None and isinstance(
+                                    rv, (ast.Tuple, ast.List)) and \
+                                    d.index < len(rv.elts):
+                                rv = rv.elts[d.index]
+                            out += _derivations(h, rv, depth + 1, seen)
+                    continue
+            if d.index is not None and isinstance(v, (ast.Tuple, ast.List)) \
+                    and d.index < len(v.elts):
+                v = v.elts[d.index]
+            out += _derivations(fn, v, depth + 1, seen)
+    return out
+
+
+def legacy_seek_rebased(repo, col):
+    """Legacy shards keep the index in <n>.index and everything behind it in
+    <n>.data: an offset counted from the start of the shard is reduced by the
+    index length before it is used inside the .data file."""
+    rule = "E-ORDER.seek-before-read.legacy"
+    fn = repo.func("sharded_file_accessor", "Shard.read_bytes")
+    closure = helper_closure(fn, 3)
+    text = " ".join(norm(f.node) for f in closure)
+    legacy = "'.data'" in text
+    seeks = [c for f in closure for c in calls_in(f.node)
+             if isinstance(c.func, ast.Attribute) and c.func.attr == "seek"
+             and c.args]
+    own = [c for c in calls_in(fn.node)
+           if isinstance(c.func, ast.Attribute) and c.func.attr == "seek"
+           and c.args]
+    if not legacy or not own:
+        col.add(rule, fn, "offset rebased for .data", True,
+                "no legacy .data branch / no seek in read_bytes recognised",
+                undecided=True)
+        return
+    for c in own:
+        ds = _derivations(fn, c.args[0])
+        rebased = any(
+            isinstance(x, ast.BinOp) and isinstance(x.op, ast.Sub) and
+            "header_byte_length" in norm(x.right) or
+            (isinstance(x, ast.AugAssign) and isinstance(x.op, ast.Sub))
+            for e in ds for x in ast.walk(e))
+        # `offset -= self.header_byte_length` in place
+        if not rebased:
+            for f in closure:
+                for st in ast.walk(f.node):
+                    if isinstance(st, ast.AugAssign) and \
+                            isinstance(st.op, ast.Sub) and \
+                            "header_byte_length" in norm(st.value) and \
+                            norm(st.target) in {norm(e) for e in ds}:
+                        rebased = True
+        col.add(rule, fn, norm(c)[:50], rebased, "" if rebased else
+                "the position `%s` that read_bytes seeks to never has the "
+                "index length (header_byte_length) subtracted, although the "
+                "bytes may come from the legacy .data file: every read there "
+                "lands that many bytes too far" % norm(c.args[0])[:40],
+                node=c)
+
+
+# ---------------------------------------------------------------------
+def _zero_tests_dominating(f, stmt, names):
+    """If-tests (with continue / return / raise bodies, or enclosing the
+    statement) in f that mention one of `names` and dominate `stmt`."""
+    from .rules_more3 import _tests_enclosing
+    cfg = f.cfg()
+    dom = cfg.dominators()
+    sn = cfg.node_of(stmt)
+    out = []
+    if sn is None:
+        return out
+    from .core import stmts_of
+    for st in stmts_of(f.node):
+        if isinstance(st, ast.If) and names_in(st.test) & names:
+            gn = cfg.node_of(st)
+            if gn is not None and gn.id in dom[sn.id] and st.body and \
+                    isinstance(st.body[-1], (ast.Continue, ast.Return,
+                                             ast.Raise, ast.Break)):
+                out.append(st)
+    for t, _ in (_tests_enclosing(f.node, stmt) or []):
+        if names_in(t) & names:
+            out.append(t)
+    return out
+
+
+def nonempty_range_before_read(repo, col):
+    """An unused minishard has an empty index range.  Asking the byte-range
+    reader for zero bytes is harmless on a local file but is the unsatisfiable
+    request `Range: bytes=N-(N-1)` over HTTP: the emptiness test comes before
+    the read, not after it."""
+    rule = "E-PROTO.empty-range"
+    from .core import enclosing_stmt_map
+    fn = repo.func("sharded_base", "ShardCMC.populate_minishard_dict")
+    closure = helper_closure(fn, 3)
+    reads = [(f, c) for f in closure for c in calls_in(f.node)
+             if isinstance(c.func, ast.Attribute) and
+             c.func.attr == "read_bytes" and len(c.args) >= 2 and
+             # a fixed length (the shard index itself) is never empty
+             (names_in(c.args[1]) - {"self", "cls", "int", "len"})]
+    if not reads:
+        col.add(rule, fn, "read_bytes(start, length)", True,
+                "no byte-range read recognised", undecided=True)
+        return
+
+    def guarded(f, stmt, length_expr, depth=0):
+        """True / False / None (not traced)."""
+        defs = local_defs(f.node)
+        names = set(names_in(length_expr))
+        from .dataflow import closure_names
+        names |= closure_names(f.node, names, defs)
+        names -= {"self", "cls", "int", "len", "np", "numpy"}
+        if not names:
+            return None
+        if _zero_tests_dominating(f, stmt, names):
+            return True
+        if depth > 3:
+            return None
+        # the length is a parameter: the callers decide
+        params = [p for p in f.params if p not in ("self", "cls")]
+        pn = [n for n in names_in(length_expr) if n in params]
+        if pn:
+            res = []
+            for g in closure:
+                for c in calls_in(g.node):
+                    if resolve_local_call(g, c) is not f:
+                        continue
+                    idx = params.index(pn[0])
+                    arg = c.args[idx] if idx < len(c.args) else None
+                    for k in c.keywords:
+                        if k.arg == pn[0]:
+                            arg = k.value
+                    if arg is None:
+                        res.append(None)
+                        continue
+                    st = enclosing_stmt_map(g.node).get(id(c))
+                    res.append(guarded(g, st, arg, depth + 1))
+            if res and all(r is True for r in res):
+                return True
+            if any(r is False for r in res):
+                return False
+            return None if not res or any(r is None for r in res) else True
+        # the length is the element of a local generator: its yields decide
+        for n in names_in(length_expr):
+            for d in defs.get(n, []):
+                if d.kind == "for" and isinstance(d.value, ast.Call):
+                    h = resolve_local_call(f, d.value)
+                    if h is None:
+                        continue
+                    ys = [y for y in ast.walk(h.node)
+                          if isinstance(y, ast.Yield) and y.value is not None]
+                    if not ys:
+                        continue
+                    r = []
+                    for y in ys:
+                        st = enclosing_stmt_map(h.node).get(id(y))
+                        v = y.value
+                        if d.index is not None and isinstance(
+                                v, (ast.Tuple, ast.List)) and \
+                                d.index < len(v.elts):
+                            v = v.elts[d.index]
+                        r.append(guarded(h, st, v, depth + 1))
+                    if r and all(x is True for x in r):
+                        return True
+                    if any(x is False for x in r):
+                        return False
+                    return None
+        # traced down to the raw index entries with no test on the way
+        txt = " ".join(norm(d.value) for n in names for d in defs.get(n, [])
+                       if d.value is not None) + " " + norm(length_expr)
+        if "offsets" in txt or " - " in txt or "end" in names:
+            return False
+        return None
+    for f, c in reads:
+        st = enclosing_stmt_map(f.node).get(id(c))
+        r = guarded(f, st, c.args[1])
+        col.add(rule, f, norm(c)[:60], r is not False,
+                "an emptiness test on the length precedes the read" if r
+                else ("the byte range `%s` is requested without a preceding "
+                      "test that its length is not zero: for an unused "
+                      "minishard this is a zero-length read, which an HTTP "
+                      "server answers with 416 and the whole shard becomes "
+                      "unreadable" % norm(c)[:50] if r is False else
+                      "origin of the length not traced"),
+                node=c, undecided=r is None)
+
+
+# ---------------------------------------------------------------------
+def pad_after_promotion(repo, col):
+    """AveragingDownscaler: the outside value is a float given by the user;
+    np.pad casts it to the dtype of the array it pads.  The chunk is therefore
+    promoted to the floating-point work type before it is padded."""
+    rule = "E-DTYPE.pad-promoted"
+    from .core import enclosing_stmt_map
+    fn = repo.func("downscaling", "AveragingDownscaler.downscale")
+    cfg = fn.cfg()
+    dom = cfg.dominators()
+    owner = enclosing_stmt_map(fn.node)
+    defs = local_defs(fn.node)
+
+    def is_pad(c):
+        return (call_name(c) or "").split(".")[-1] == "pad" and (
+            any(k.arg is None or k.arg == "constant_values"
+                for k in c.keywords) or len(c.args) >= 3)
+
+    def may_pad(f, depth=0):
+        for c in calls_in(f.node):
+            if is_pad(c):
+                return True
+            if depth < 3:
+                h = resolve_local_call(f, c)
+                if h is not None and h is not f and may_pad(h, depth + 1):
+                    return True
+        return False
+    pad_nodes = []
+    for c in calls_in(fn.node):
+        hit = is_pad(c)
+        if not hit:
+            h = resolve_local_call(fn, c)
+            hit = h is not None and h is not fn and may_pad(h)
+        if hit:
+            n_ = cfg.node_of(owner.get(id(c)))
+            if n_ is not None:
+                pad_nodes.append((c, n_))
+    promos = []
+    from .dataflow import closure_names
+    for c in calls_in(fn.node):
+        nm = (call_name(c) or "").split(".")[-1]
+        d = None
+        if nm == "astype" and c.args:
+            d = c.args[0]
+        elif nm in ("asarray", "array", "asanyarray"):
+            d = kwarg(c, "dtype") or (c.args[1] if len(c.args) > 1 else None)
+        if d is None:
+            continue
+        names = names_in(d) | closure_names(fn.node, names_in(d), defs)
+        txt = norm(d) + " " + " ".join(
+            norm(x.value) for n in names for x in defs.get(n, [])
+            if x.value is not None)
+        if "promote_types" in txt or "float" in txt:
+            n_ = cfg.node_of(owner.get(id(c)))
+            if n_ is not None:
+                promos.append(n_)
+    if not pad_nodes:
+        col.add(rule, fn, "np.pad(...)", True, "no padding call recognised",
+                undecided=True)
+        return
+    if not promos:
+        col.add(rule, fn, "chunk.astype(work dtype)", True,
+                "promotion to the work type not in the recognised form",
+                undecided=True)
+        return
+    for c, n_ in pad_nodes:
+        ok = any(p.id in dom[n_.id] for p in promos)
+        col.add(rule, fn, norm(c)[:60], ok, "" if ok else
+                "`%s` pads the chunk on a path where it still has its input "
+                "dtype: np.pad casts the outside value to that dtype (2.5 "
+                "becomes 2, -1 wraps for unsigned types) before it is "
+                "averaged" % norm(c)[:50], node=c)
+
+
+# ---------------------------------------------------------------------
+def jpeg_pixel_type_checked(repo, col):
+    """JPEG decoder: PIL opens any image format it knows; a 16-bit or 1-bit
+    single-band image has the right number of pixels and channels but decodes
+    to another dtype.  Some test of the decoded pixel type (image mode, array
+    dtype, format) or a conversion to 8 bits stands between PIL and the
+    returned array."""
+    rule = "E-EXC.shape.jpeg-dtype"
+    fn = repo.func("_jpeg", "decode_chunk")
+    closure = helper_closure(fn, 3)
+    evidence = []
+    for f in closure:
+        for g, atoms in _raise_guards_of(f):
+            for x in ast.walk(g.test if hasattr(g, "test") else g):
+                if isinstance(x, ast.Attribute) and x.attr in (
+                        "mode", "dtype", "format", "bits", "itemsize"):
+                    evidence.append((f, g, x.attr))
+                if isinstance(x, ast.Call) and (call_name(x) or "").split(
+                        ".")[-1] in ("getbands", "can_cast", "issubdtype"):
+                    evidence.append((f, g, "call"))
+        for c in calls_in(f.node):
+            nm = (call_name(c) or "").split(".")[-1]
+            if nm == "convert" and c.args:
+                evidence.append((f, c, "convert"))
+            if nm == "astype" and c.args and "uint8" in norm(c.args[0]):
+                evidence.append((f, c, "astype"))
+            if nm in ("asarray", "array") and kwarg(c, "dtype") is not None:
+                evidence.append((f, c, "dtype="))
+    if evidence:
+        f, g, what = evidence[0]
+        col.add(rule, fn, "pixel type of the decoded image is checked", True,
+                "%s tests / fixes the pixel type (%s)" % (f.qualname, what),
+                node=g)
+    else:
+        col.add(rule, fn, "pixel type of the decoded image is checked", False,
+                "no raising test in the JPEG decoder looks at the image mode, "
+                "the array dtype or the file format, and nothing converts to "
+                "8 bits: a 16-bit or 1-bit single-band image of the right "
+                "size is returned with another dtype than the requested "
+                "uint8 instead of being rejected")
+
+
+def _raise_guards_of(f):
+    from .dataflow import raise_guards
+    return raise_guards(f.node)
+
+
+# ---------------------------------------------------------------------
+def round_clip_in_work_dtype(repo, col):
+    """Value converter: rounding and clipping operate on an array of the work
+    dtype (the promotion of input and output type) - in the input's own dtype
+    the clipping bounds are not representable (float32 cannot hold 2**32-1)
+    and the result wraps.  Every path to np.rint / np.clip passes a cast of
+    their operand to an explicitly given dtype."""
+    rule = "E-DTYPE.work-cast"
+    from .core import enclosing_stmt_map, stmts_of
+    m = repo.module("data_types")
+    funcs = list(m.functions.values())
+
+    def is_cast(f, e, depth=0):
+        if isinstance(e, ast.IfExp):
+            return is_cast(f, e.body, depth) and is_cast(f, e.orelse, depth)
+        if not isinstance(e, ast.Call):
+            return False
+        nm = (call_name(e) or "").split(".")[-1]
+        d = None
+        if nm == "astype" and e.args:
+            d = e.args[0]
+        elif nm in ("asarray", "array", "asanyarray", "ascontiguousarray",
+                    "require"):
+            d = kwarg(e, "dtype") or (e.args[1] if len(e.args) > 1 else None)
+        if d is not None:
+            t = norm(d)
+            return not (t.endswith(".dtype") or "input" in t)
+        h = resolve_local_call(f, e)
+        if h is not None and h is not f and depth < 3:
+            rets = [r.value for r in stmts_of(h.node)
+                    if isinstance(r, ast.Return) and r.value is not None]
+            hdefs = local_defs(h.node)
+
+            def ret_cast(rv):
+                if is_cast(h, rv, depth + 1):
+                    return True
+                if isinstance(rv, ast.Name):
+                    ds = [x for x in hdefs.get(rv.id, []) if x.kind != "param"]
+                    pr = [x for x in hdefs.get(rv.id, []) if x.kind == "param"]
+                    if ds and not pr:
+                        return all(x.value is not None and
+                                   is_cast(h, x.value, depth + 1) for x in ds)
+                    if ds and pr:
+                        # a parameter rebound on some paths only
+                        cfg = h.cfg()
+                        rn = [cfg.node_of(r) for r in stmts_of(h.node)
+                              if isinstance(r, ast.Return) and r.value is rv]
+                        casts = [cfg.node_of(x.stmt) for x in ds
+                                 if x.value is not None and
+                                 is_cast(h, x.value, depth + 1)]
+                        casts = [c for c in casts if c is not None]
+                        return bool(rn) and rn[0] is not None and \
+                            cfg.every_path_passes(cfg.entry, rn[0], casts)
+                return False
+            return bool(rets) and all(ret_cast(rv) for rv in rets)
+        return False
+
+    def callers_of(f):
+        out = []
+        for g in funcs:
+            for c in calls_in(g.node):
+                if resolve_local_call(g, c) is f:
+                    out.append((g, c))
+        return out
+
+    def check(f, stmt, name, depth=0):
+        """'ok' | 'raw' | 'und' for operand `name` used at stmt of f."""
+        cfg = f.cfg()
+        sn = cfg.node_of(stmt)
+        if sn is None or depth > 3:
+            return "und", None
+        defs = local_defs(f.node)
+        casts = []
+        for d in defs.get(name, []):
+            if d.kind == "assign" and d.value is not None and \
+                    d.index is None and is_cast(f, d.value):
+                n_ = cfg.node_of(d.stmt)
+                if n_ is not None:
+                    casts.append(n_)
+        if casts and cfg.every_path_passes(cfg.entry, sn, casts):
+            return "ok", None
+        is_param = any(d.kind == "param" for d in defs.get(name, []))
+        if is_param:
+            cs = callers_of(f)
+            if not cs:
+                # the converter itself: its argument is the raw chunk
+                path = cfg.path(cfg.entry, sn, avoiding=casts)
+                return "raw", path
+            res = []
+            params = [p for p in f.params if p not in ("self", "cls")]
+            idx = params.index(name)
+            for g, c in cs:
+                arg = c.args[idx] if idx < len(c.args) else None
+                for k in c.keywords:
+                    if k.arg == name:
+                        arg = k.value
+                if arg is None:
+                    res.append(("und", None))
+                elif is_cast(g, arg):
+                    res.append(("ok", None))
+                elif isinstance(arg, ast.Name):
+                    st = enclosing_stmt_map(g.node).get(id(c))
+                    res.append(check(g, st, arg.id, depth + 1))
+                else:
+                    res.append(("und", None))
+            for r in res:
+                if r[0] == "raw":
+                    return r
+            if all(r[0] == "ok" for r in res):
+                return "ok", None
+            return "und", None
+        # a local that is not cast on some path: what is it bound to there?
+        others = [d for d in defs.get(name, []) if d.kind == "assign"
+                  and d.value is not None and not is_cast(f, d.value)]
+        for d in others:
+            v = d.value
+            if isinstance(v, ast.Name):
+                r = check(f, d.stmt, v.id, depth + 1)
+                if r[0] != "ok":
+                    return r
+            elif isinstance(v, ast.Call) and \
+                    resolve_local_call(f, v) is not None:
+                return "raw", None     # a helper with an un-cast return
+            else:
+                return "und", None
+        return "und", None
+    n = 0
+    for f in funcs:
+        owner = enclosing_stmt_map(f.node)
+        for c in calls_in(f.node):
+            nm = (call_name(c) or "").split(".")[-1]
+            if nm not in ("rint", "clip", "round", "around") or not c.args:
+                continue
+            op = c.args[0]
+            if nm in ("clip",) and isinstance(c.func, ast.Attribute) and \
+                    not (isinstance(c.func.value, ast.Name) and
+                         c.func.value.id in ("np", "numpy")):
+                op = c.func.value
+            if not isinstance(op, ast.Name):
+                continue
+            n += 1
+            verdict, path = check(f, owner.get(id(c)), op.id)
+            col.add(rule, f, norm(c)[:60], verdict != "raw",
+                    "operand cast to the work dtype on every path"
+                    if verdict == "ok" else
+                    ("`%s` is reached on a path where `%s` is still the array "
+                     "that was passed in, in its own dtype: rounding and "
+                     "clipping then run in the input type, whose values "
+                     "cannot represent the output limits (float32 and "
+                     "2**32-1), so saturated values wrap"
+                     % (norm(c)[:40], op.id) if verdict == "raw" else
+                     "dtype of the operand not traced"),
+                    node=c, undecided=verdict == "und",
+                    path=[repr(p_) for p_ in path] if path else None)
+    if n == 0:
+        col.add(rule, m.short + ":module", "np.rint / np.clip", True,
+                "no rounding / clipping call recognised in data_types",
+                undecided=True)
+
+
+# ---------------------------------------------------------------------
+def readable_count_format_types(repo, col):
+    """readable_count promises at least two significant digits: the general
+    format ('g' without '#') drops trailing zeros, so 1024 prints as '1 ki'."""
+    rule = "E-TABLE.iec.format-type"
+    fn = repo.func("utils", "readable_count")
+    n = 0
+    for f in helper_closure(fn, 3):
+        for x in ast.walk(f.node):
+            spec = None
+            if isinstance(x, ast.FormattedValue) and x.format_spec is not None:
+                parts = [v.value for v in x.format_spec.values
+                         if isinstance(v, ast.Constant)]
+                if len(parts) == len(x.format_spec.values):
+                    spec = "".join(str(p) for p in parts)
+            elif isinstance(x, ast.Call) and call_name(x) == "format" and \
+                    len(x.args) == 2 and isinstance(x.args[1], ast.Constant):
+                spec = str(x.args[1].value)
+            elif isinstance(x, ast.Constant) and isinstance(x.value, str) \
+                    and "{" in x.value and ":" in x.value:
+                for mm in re.finditer(r"\{[^{}:]*:([^{}]*)\}", x.value):
+                    s_ = mm.group(1)
+                    if s_ and s_[-1] in "gG":
+                        spec = s_
+            if spec is None or not spec or spec[-1] not in "gGfFeEn%":
+                continue
+            n += 1
+            bad = spec[-1] in "gG" and "#" not in spec
+            col.add(rule, f, "format spec %r" % spec, not bad, "" if not bad
+                    else "the general format %r removes trailing zeros: a "
+                    "mantissa that rounds to a whole number (1024 -> 1.0) is "
+                    "printed with one significant digit" % spec, node=x)
+    if n == 0:
+        col.add(rule, fn, "format specs", True, "no literal format spec "
+                "recognised", undecided=True)
